@@ -62,6 +62,9 @@ type Req struct {
 	// Shadow: for formData parameters, a value of the same name carried in the URL query string
 	// (another location: it must not be looked at)
 	Shadow *mon.Q `json:"shadowQuery,omitempty"`
+	// OtherKey: for query and formData parameters, the texts are sent under this key, which differs
+	// from the declared name in letter case only: such a request does not carry the parameter
+	OtherKey string `json:"otherKey,omitempty"`
 }
 
 // Case is a set of declarations (one operation each) and requests.
@@ -312,8 +315,11 @@ func hasValidation(d *gen.Param) bool {
 	return d.Minimum != nil || d.Maximum != nil || d.MinLength != nil || d.MaxLength != nil || len(d.Enum) > 0 || d.MinItems != nil || d.MaxItems != nil
 }
 
+// gone: the request does not carry the parameter under its declared name.
+func (rq *Req) gone() bool { return rq.Absent || rq.OtherKey != "" }
+
 func expect(d *gen.Param, rq *Req) expectation {
-	absent := rq.Absent
+	absent := rq.gone()
 	texts := mon.SQ(rq.Texts)
 	if d.Type == "file" {
 		if absent {
@@ -410,6 +416,11 @@ func expect(d *gen.Param, rq *Req) expectation {
 		}
 		if !absent && (hasValidation(d) || d.Format == "uuid") {
 			return expectation{either: true, why: "empty text with a declared validation (or a validated format)"}
+		}
+		if ds, isStr := d.Default.(string); isStr && ds == "" && d.Required && !d.AllowEmptyValue {
+			// the statement's two clauses meet: the default applies, and the value it yields is the empty
+			// text a required parameter that does not allow empty values must not have. Not judged.
+			return expectation{either: true, why: "required, empty values not allowed, declared default is the empty text"}
 		}
 		if d.Default != nil {
 			c, ok := canonDefault(d.Type, d.Format, d.Default)
@@ -554,6 +565,10 @@ func (c *Case) request(rq *Req) (*http.Request, bool) {
 	var body io.Reader
 	ct := ""
 	hdr := http.Header{}
+	key := d.Name
+	if rq.OtherKey != "" && (d.In == "query" || d.In == "formData") {
+		key = rq.OtherKey
+	}
 	switch d.In {
 	case "path":
 		if rq.Absent || len(texts) != 1 || texts[0] == "" || texts[0] == "." || texts[0] == ".." {
@@ -564,7 +579,7 @@ func (c *Case) request(rq *Req) (*http.Request, bool) {
 		if !rq.Absent {
 			var parts []string
 			for _, t := range texts {
-				parts = append(parts, url.QueryEscape(d.Name)+"="+url.QueryEscape(t))
+				parts = append(parts, url.QueryEscape(key)+"="+url.QueryEscape(t))
 			}
 			target += "?" + strings.Join(parts, "&")
 		}
@@ -596,11 +611,11 @@ func (c *Case) request(rq *Req) (*http.Request, bool) {
 			_ = w.WriteField("unrelated", "1")
 			if !rq.Absent {
 				if d.Type == "file" {
-					fw, _ := w.CreateFormFile(d.Name, rq.FileName)
+					fw, _ := w.CreateFormFile(key, rq.FileName)
 					_, _ = fw.Write([]byte(texts[0]))
 				} else {
 					for _, t := range texts {
-						_ = w.WriteField(d.Name, t)
+						_ = w.WriteField(key, t)
 					}
 				}
 			}
@@ -610,7 +625,7 @@ func (c *Case) request(rq *Req) (*http.Request, bool) {
 		} else {
 			vals := url.Values{"unrelated": {"1"}}
 			if !rq.Absent {
-				vals[d.Name] = texts
+				vals[key] = texts
 			}
 			body = strings.NewReader(vals.Encode())
 			ct = "application/x-www-form-urlencoded"
@@ -653,6 +668,8 @@ func presenceClass(d *gen.Param, rq *Req) string {
 		return presenceClass(d, &r2) + "+same-name-in-query"
 	}
 	switch {
+	case rq.OtherKey != "":
+		return "absent+differently-cased-key-present"
 	case rq.Absent:
 		return "absent"
 	case len(rq.Texts) > 1:
@@ -671,14 +688,14 @@ func featureOf(d *gen.Param, rq *Req, exp *expectation) string {
 		tpe, format = d.ItemsType, d.ItemsFormat
 	}
 	lastText := ""
-	if !rq.Absent && len(rq.Texts) > 0 {
+	if !rq.gone() && len(rq.Texts) > 0 {
 		lastText = string(rq.Texts[len(rq.Texts)-1])
 	}
-	noText := rq.Absent || lastText == ""
+	noText := rq.gone() || lastText == ""
 	switch {
 	case tpe == "boolean" && !noText && hasBoolJunk(d, rq):
 		return "boolean-text-neither-true-nor-false-word"
-	case rq.Absent && !d.Required && d.Default == nil && (hasValidation(d) || d.Format == "uuid"):
+	case rq.gone() && !d.Required && d.Default == nil && (hasValidation(d) || d.Format == "uuid"):
 		return "optional-absent-with-validation"
 	case d.Default != nil && d.Type == "array":
 		return "array-default"
@@ -761,7 +778,7 @@ func runCase(m *mon.M, c *Case) {
 	for ri := range c.Reqs {
 		rq := &c.Reqs[ri]
 		d := &c.Decls[rq.D]
-		one := &Case{Decls: []gen.Param{*d}, Forms: []string{c.Forms[rq.D]}, Reqs: []Req{{D: 0, Absent: rq.Absent, Texts: rq.Texts, HeaderKey: rq.HeaderKey, FileName: rq.FileName, Shadow: rq.Shadow}}}
+		one := &Case{Decls: []gen.Param{*d}, Forms: []string{c.Forms[rq.D]}, Reqs: []Req{{D: 0, Absent: rq.Absent, Texts: rq.Texts, HeaderKey: rq.HeaderKey, FileName: rq.FileName, Shadow: rq.Shadow, OtherKey: rq.OtherKey}}}
 		req, ok := c.request(rq)
 		if !ok {
 			m.Class("undeliverable")
@@ -835,7 +852,7 @@ func runCase(m *mon.M, c *Case) {
 		sc := Case{}
 		if len(c.Decls) > 0 && len(c.Reqs) > 0 {
 			rq := c.Reqs[len(c.Reqs)/2]
-			sc = Case{Decls: []gen.Param{c.Decls[rq.D]}, Forms: []string{c.Forms[rq.D]}, Reqs: []Req{{Absent: rq.Absent, Texts: rq.Texts, HeaderKey: rq.HeaderKey}}}
+			sc = Case{Decls: []gen.Param{c.Decls[rq.D]}, Forms: []string{c.Forms[rq.D]}, Reqs: []Req{{Absent: rq.Absent, Texts: rq.Texts, HeaderKey: rq.HeaderKey, OtherKey: rq.OtherKey}}}
 		}
 		m.Sample(sc)
 	}
@@ -998,7 +1015,7 @@ func expString(e *expectation) string {
 
 // literalClass: input-only classification of the text, for signatures.
 func literalClass(d *gen.Param, rq *Req) string {
-	if rq.Absent || len(rq.Texts) == 0 {
+	if rq.gone() || len(rq.Texts) == 0 {
 		return "no-text"
 	}
 	t := string(rq.Texts[len(rq.Texts)-1])
@@ -1100,6 +1117,21 @@ func defaultFor(k kind) interface{} {
 	return nil
 }
 
+// zeroDefaultFor: a declared default equal to the zero value of the kind (nil: none enumerated).
+func zeroDefaultFor(k kind) interface{} {
+	switch k.tpe {
+	case "string":
+		if k.format == "" {
+			return ""
+		}
+	case "integer", "number":
+		return float64(0)
+	case "boolean":
+		return false
+	}
+	return nil
+}
+
 var headerNames = []string{"X-Limit", "x-limit", "X-LIMIT", "X-Request-ID", "x_under", "Accept-Language"}
 
 // allDecls enumerates the declaration space deterministically.
@@ -1128,18 +1160,28 @@ func allDecls() (decls []gen.Param, forms []string) {
 				return
 			}
 			for _, req := range []bool{false, true} {
-				for _, def := range []bool{false, true} {
+				for _, def := range []string{"", "set", "zero"} {
+					if def == "zero" && zeroDefaultFor(k) == nil {
+						continue
+					}
 					for _, ae := range []bool{false, true} {
 						for _, val := range []bool{false, true} {
+							if val && def == "zero" && k.tpe == "string" && !isArray {
+								continue // "" would not satisfy the declared minLength: not a well-formed declaration
+							}
 							p := base
 							p.Required = req
 							p.AllowEmptyValue = ae
-							if def {
-								if isArray {
-									p.Default = []interface{}{defaultFor(k), defaultFor(k)}
-								} else {
-									p.Default = defaultFor(k)
-								}
+							switch {
+							case def == "set" && isArray:
+								p.Default = []interface{}{defaultFor(k), defaultFor(k)}
+							case def == "set":
+								p.Default = defaultFor(k)
+							case def == "zero" && isArray:
+								// a declared default that happens to be the zero value is still a declared default
+								p.Default = []interface{}{zeroDefaultFor(k), zeroDefaultFor(k)}
+							case def == "zero":
+								p.Default = zeroDefaultFor(k)
 							}
 							if val {
 								applyValidation(&p, k, isArray)
@@ -1227,6 +1269,24 @@ func poolFor(tpe, format string) []string {
 
 func genReqs(r *rand.Rand, di int, d *gen.Param, full bool) []Req {
 	out := genReqsPlain(r, di, d, full)
+	if d.In == "query" || d.In == "formData" {
+		// field names are case-sensitive in these locations: a value under "P3" is not parameter "p3"
+		var other []string
+		for _, k := range []string{strings.ToUpper(d.Name), strings.ToLower(d.Name), http.CanonicalHeaderKey(d.Name)} {
+			if k != d.Name {
+				other = append(other, k)
+			}
+		}
+		n := len(out)
+		for i := 0; i < n && len(other) > 0; i++ {
+			if out[i].Absent || (!full && r.Intn(4) != 0) {
+				continue
+			}
+			c := out[i]
+			c.OtherKey = other[r.Intn(len(other))]
+			out = append(out, c)
+		}
+	}
 	if d.In == "formData" && d.Type != "file" {
 		// the same requests with a same-named value in the URL query string
 		n := len(out)
